@@ -55,9 +55,9 @@ func (e *Env) ValidPreparedProof(p *protocol.PreparedProof, h primitives.BlockHe
 	if pp == nil || pr == nil || pps == nil || len(pp.Raw()) == 0 || len(pr.Raw()) == 0 || len(pps.Raw()) == 0 {
 		return no("proof-incomplete"), nil
 	}
-	if pp.MessageType() != protocol.LEAN_HELIX_PREPREPARE || pr.MessageType() != protocol.LEAN_HELIX_PREPARE {
-		return no("type-tag"), nil
-	}
+	// The type tags of the two block references are deliberately not part of this predicate (DESIGN.md section 10, false
+	// alarm "proof-types"): the only genuine signatures that exist over the same (instance, height, view, hash) with another
+	// tag are COMMITs, and a correct member commits only after being prepared, so they prove at least as much.
 	if pp.InstanceId() != pr.InstanceId() {
 		return no("proof-instance-mismatch"), nil
 	}
@@ -206,17 +206,20 @@ func (e *Env) ValidNewView(nv *interfaces.NewViewMessage, h primitives.BlockHeig
 	var ids []primitives.MemberId
 	seen := map[string]bool{}
 	var best *ProofInfo
+	firstBad := ""
 	it := hd.ViewChangeConfirmationsIterator()
 	for it.HasNext() {
 		vote := it.NextViewChangeConfirmations()
-		vv, info, invalidProof := e.AuthenticVote(vote, h, v, com)
+		vv, info, _ := e.AuthenticVote(vote, h, v, com)
 		if !vv.OK {
-			return vv, nil
+			// A confirmation that is not an authentic vote of a committee member for (instance,h,v) simply does not count:
+			// the certificate is valid if the votes that DO qualify are pairwise distinct members of quorum weight.
+			firstBad = vv.Why
+			continue
 		}
-		_ = invalidProof // a vote with a valid signature but an invalid proof still counts as a vote; its proof does not count
 		id := vote.Sender().MemberId()
 		if seen[string(id)] {
-			return no("nv-duplicate-voter"), nil
+			continue // counted once
 		}
 		seen[string(id)] = true
 		ids = append(ids, id)
@@ -225,6 +228,9 @@ func (e *Env) ValidNewView(nv *interfaces.NewViewMessage, h primitives.BlockHeig
 		}
 	}
 	if !IsQuorum(ids, com) {
+		if firstBad != "" {
+			return no("nv-votes-below-quorum:" + firstBad), nil
+		}
 		return no("nv-votes-below-quorum"), nil
 	}
 	pp := c.Message()
@@ -232,12 +238,9 @@ func (e *Env) ValidNewView(nv *interfaces.NewViewMessage, h primitives.BlockHeig
 		return no("nv-no-proposal"), nil
 	}
 	ph := pp.SignedHeader()
-	if ph.MessageType() != protocol.LEAN_HELIX_PREPREPARE {
-		return no("type-tag"), nil
-	}
-	if ph.InstanceId() != e.Instance {
-		return no("nv-pp-instance"), nil
-	}
+	// Type tag and instance id of the EMBEDDED proposal header are deliberately not part of this predicate: the NEW_VIEW
+	// header around it is signed by the same leader for this instance, so they add nothing an attacker could not sign itself
+	// (see DESIGN.md section 10, false alarm "nvpp-type").
 	if ph.BlockHeight() != h || ph.View() != v {
 		return no("nv-pp-height-view"), nil
 	}
